@@ -164,6 +164,30 @@ def serverOpn (srv : SrvCfg) (o : Opn) : Outcome :=
     | none => .reject
     | some c => .accept ⟨c.policy, c.mode⟩
 
+/-! ### second and later OpenSecureChannel requests on the same connection (renewal)
+
+  The server keeps one `uasc.Config` and one channel instance per connection; a later OPN goes
+  through the same two functions, starting from the configuration the previous one left behind. -/
+
+/-- one OPN on a connection whose configuration is `c`; `none` = the channel is dropped -/
+def opnFrom (srv : SrvCfg) (c : ChanCfg) (o : Opn) : Option ChanCfg :=
+  match readChunkOpn srv c o with
+  | none => none
+  | some c' => handleOpen c' o
+
+/-- a sequence of OPNs on one connection; after a refusal the connection is gone -/
+def opnSeq (srv : SrvCfg) : Option ChanCfg → List Opn → List Outcome
+  | _, [] => []
+  | none, _ :: rest => .reject :: opnSeq srv none rest
+  | some c, o :: rest =>
+    match opnFrom srv c o with
+    | none => .reject :: opnSeq srv none rest
+    | some c' => .accept ⟨c'.policy, c'.mode⟩ :: opnSeq srv (some c') rest
+
+/-- signature of a renewal that leaves the channel with a pair that is not enabled -/
+def classifyRenew (srv : SrvCfg) (s : Sec) : String :=
+  if srv.enabled.contains s then "enabled" else "C30.renew-switches-security"
+
 /-! ### the explicit acceptance condition and the classes of wrongly accepted requests -/
 
 /-- closed form of `serverOpn … = accept` (proved equivalent in Props/C30) -/
